@@ -92,10 +92,17 @@ def check_spec(ctx, color, bg, effects, text, case):
         ctx.violation("wrong-colour-or-effects", {"shown": repr(bad[0]), "requested": repr(want), "out": out[:60]}, case)
     if after[1] != sgr.DEFAULT:
         ctx.violation("colour-bleeds-after-chunk", {"out": out[:60]}, case)
-    # strip
+    # strip: through the chunk's own entry point and through CHText's (which one is used first in
+    # this process depends on the shard)
     ctx.count("strip_checks")
-    if CHText.strip_colors(out) != text or chunk.plain_text() != text:
-        ctx.violation("strip-colors-leaves-sequences", {"stripped": CHText.strip_colors(out)[:80]}, case)
+    strippers = [("chunk", chunk.strip_colors), ("CHText", CHText.strip_colors)]
+    if STRIP_ORDER[0]:
+        strippers.reverse()
+    for who, fn in strippers:
+        if fn(out) != text:
+            ctx.violation("strip-colors-leaves-sequences", {"via": who, "stripped": fn(out)[:80]}, case)
+    if chunk.plain_text() != text:
+        ctx.violation("strip-colors-leaves-sequences", {"via": "plain_text"}, case)
     # no_color twin
     try:
         nc = str(ColorFmt(color, bg_color=bg, no_color=True, **kw)(text))
@@ -105,6 +112,9 @@ def check_spec(ctx, color, bg, effects, text, case):
         ctx.violation("no-color-formatter-raises", {"type": type(err).__name__}, case)
     # bytes twin
     try:
+        nb = ColorBytes(color, bg_color=bg, no_color=True, **kw)(text.encode())
+        if nb != text.encode():
+            ctx.violation("no-color-formatter-emits-escape", {"cls": "ColorBytes", "out": repr(nb)[:60]}, case)
         b = ColorBytes(color, bg_color=bg, **kw)(text.encode())
         ctx.count("bytes_checks")
         if b != out.encode():
@@ -134,7 +144,11 @@ def jv(v):
     return v  # tuples survive the replay files (vf.core.jsonable keeps them)
 
 
+STRIP_ORDER = [False]
+
+
 def run_shard(ctx):
+    STRIP_ORDER[0] = bool(ctx.shard % 2)
     if ctx.shard == 0:
         for v in all_single_values():
             for as_bg in (False, True):
